@@ -9,11 +9,11 @@ from harness import common as c
 
 RULE = ("(a) structural, exact: random rule sets (1..5 actions, 0..3 effects each drawn from fixed pointer (symbol / Semantic "
         "Pointer), fixed scalar, dynamic pointer, dynamic scalar; shared and distinct targets; State targets with "
-        "subdimensions 1/4/16) built without simulation; read from the Nengo graph: utility node -> basal-ganglia input "
+        "subdimensions 1/4/8/16, d in {16, 24, 32} so that channels have first / remainder ensembles) built without simulation; read from the Nengo graph: utility node -> basal-ganglia input "
         "index, every connection from a thalamus action ensemble to a target with its transform, every gate (driving "
         "action ensemble, bias, -1 transform), the channel it inhibits (kind, number of inhibited neurons = all neurons of "
         "the channel, weights = -route_inhibit), channel -> target and source -> channel connections; compared as a "
-        "multiset with the model's build. (b) seeded LIFRate simulation of blocks with 2..4 actions and winner sequences of "
+        "multiset with the model's build. (b) seeded LIFRate simulation of blocks with 1..4 actions and winner sequences of "
         "2-3 phases (utility margin >= 0.5): thalamus one-hot-ness and the mean output of every target over the last 0.1 s "
         "of each phase (State: signal arriving at its input node; Scalar: decoded value) against the ideal model (tolerance 0.25 per dimension). Non-trivial: at least two actions and one "
         "effect; distinct = distinct (rule set, seed, phase).")
@@ -21,7 +21,12 @@ ASSUMPTIONS = ["winner-take-all dynamics of basal ganglia / thalamus are not mod
                "(winner > 0.75, losers < 0.2) in every simulated phase",
                "dynamic effect sources are module outputs or constant multiples of them, so the value of each source expression is known (C01 covers compilation)"]
 IMPORTS = algs.IMPORTS + " Model.Routing Tie.RoutingTie"
-D = 16
+D = 16       # dimensionality of pointer targets; set per rule set by _set_dim (16, 24 or 32)
+
+
+def _set_dim(d):
+    global D
+    D = d
 SC = 2   # effect values are sent to Coq multiplied by SC
 
 
@@ -29,7 +34,7 @@ def gen_rules(rng, na=None, sim=False):
     """A rule set: targets and actions.  Effects: (kind, target, payload)."""
     na = na or rng.randint(1, 5)
     npt, nst = rng.randint(1, 3), rng.randint(1, 2)
-    targets = [("P", rng.choice([1, 4, 16])) for _ in range(npt)] + [("S", None)] * nst
+    targets = [("P", rng.choice([1, 4, 8] + ([16] if D % 16 == 0 else []))) for _ in range(npt)] + [("S", None)] * nst
     actions, ndyn = [], 0
     used = {t: set() for t in range(len(targets))}      # basis dimensions already used per pointer target (sim: no overlap)
     for i in range(na):
@@ -96,6 +101,9 @@ def build_block(targets, actions, ndyn, seed, neuron, utilities=None):
     h = {}
     with spa.Network(seed=seed) as net:
         net.config[nengo.Ensemble].neuron_type = neuron
+        if D % 16:
+            # the routing channels are spa.State modules with the configured default split (16 does not divide D)
+            net.config[spa.State].subdimensions = 8
         tg = []
         for kind, sub in targets:
             tg.append(spa.State(voc, subdimensions=sub) if kind == "P" else spa.Scalar())
@@ -211,9 +219,19 @@ def extract_wiring(h, actions):
 
 
 def simulate_block(args):
+    """Worker entry: never lets an exception cross the process boundary (unpicklable exceptions hang the pool)."""
+    try:
+        return _simulate_block(args)
+    except BaseException as e:  # noqa
+        import traceback
+        return ("error", args, f"{type(e).__name__}: {e}"[:300], traceback.format_exc()[-1500:])
+
+
+def _simulate_block(args):
     """(b): one seeded LIFRate block; returns plain data."""
     import nengo
-    seed_rules, seed, na = args
+    seed_rules, seed, na, d = args
+    _set_dim(d)
     import random
     rng = random.Random(seed_rules)
     targets, actions, ndyn = gen_rules(rng, na=na, sim=True)
@@ -237,7 +255,7 @@ def simulate_block(args):
     for k, w in enumerate(winners):
         sl = slice(int((k + 1) * T / 0.001) - 100, int((k + 1) * T / 0.001))
         res.append((w, sim.data[pt][sl].mean(0), [sim.data[p][sl].mean(0) for p in pr]))
-    return seed_rules, seed, na, targets, actions, res
+    return seed_rules, seed, na, d, targets, actions, res
 
 
 def run(rep, tier, rng):
@@ -255,9 +273,10 @@ def run(rep, tier, rng):
 
     struct_problems = []
     # ---------------- (a) structural ---------------------------------------------------------------------
-    for trial in range(25 if quick else 300):
+    for trial in range(30 if quick else 300):
+        _set_dim([16, 32, 24][trial % 3])
         targets, actions, ndyn = gen_rules(rng)
-        desc = {"targets": targets, "actions": actions}
+        desc = {"d": D, "targets": targets, "actions": actions}
         with warnings.catch_warnings():
             warnings.simplefilter("ignore")
             o = c.outcome(lambda: build_block(targets, actions, ndyn, 1, nengo.LIFRate()))
@@ -269,19 +288,27 @@ def run(rep, tier, rng):
             struct_problems.append((p, desc))
         at, dt, yt = effect_terms(targets, actions)
         add(f"check_wiring {SC} (1%Z, 1000000000%Z) {at} {c.lst(wires)}", dict(desc, op="wiring-vs-model", observed=wires),
-            ("wiring", repr(targets), repr(actions)), nontrivial=len(actions) >= 2 and any(actions),
+            ("wiring", D, repr(targets), repr(actions)), nontrivial=len(actions) >= 2 and any(actions),
             sample={"targets": targets, "actions": actions, "observed_wires": wires} if trial == 3 else None)
 
     # ---------------- (b) simulation -------------------------------------------------------------------------
     tasks = []
     for b in range(12 if quick else 64):
-        tasks.append((rng.randrange(10 ** 9), rng.choice([1, 2, 3]), rng.choice([2, 3, 3, 4])))
-    with mp.get_context("fork").Pool(min(16, len(tasks))) as pool:
-        results = pool.map(simulate_block, tasks, chunksize=1)
-    for seed_rules, seed, na, targets, actions, res in results:
+        tasks.append((rng.randrange(10 ** 9), rng.choice([1, 2, 3]), [1, 2, 3, 3, 4, 2][b % 6], [16, 32, 16, 24][b % 4]))
+    from concurrent.futures import ProcessPoolExecutor
+    with ProcessPoolExecutor(min(16, len(tasks)), mp_context=mp.get_context("fork")) as pool:
+        results = list(pool.map(simulate_block, tasks))     # a dying worker raises BrokenProcessPool instead of hanging
+    for r in results:
+        if r[0] == "error":
+            rep.violation(f"building / simulating an action-selection block failed: {r[2]}",
+                          {"case": {"rule_seed": r[1][0], "seed": r[1][1], "actions": r[1][2], "d": r[1][3]}, "traceback": r[3],
+                           "python": "# harness/props/c04.py simulate_block(%r)\nassert False, 'block could not be built or simulated'\n" % (r[1],)})
+            continue
+        seed_rules, seed, na, d, targets, actions, res = r
+        _set_dim(d)
         at, dt, yt = effect_terms(targets, actions)
         for phase, (w, thal, outs) in enumerate(res):
-            base = {"rule_seed": seed_rules, "seed": seed, "actions": actions, "targets": targets, "phase": phase, "winner": w,
+            base = {"rule_seed": seed_rules, "seed": seed, "d": d, "actions": actions, "targets": targets, "phase": phase, "winner": w,
                     "thalamus": np.round(thal, 2).tolist()}
             rep.case(("onehot", seed_rules, seed, phase))
             rep.count("thalamus-one-hot")
@@ -311,5 +338,5 @@ def run(rep, tier, rng):
             rep.violation(f"phase {m['phase']} winner {m['winner']}: target {m['target']} received {str(m['observed'])[:100]}, not the winner's effects "
                           f"(actions {str(m['actions'])[:120]})",
                           {"case": {k: v for k, v in m.items() if k != "observed"}, "observed": m["observed"],
-                           "python": "# rebuild with harness/props/c04.py simulate_block((rule_seed, seed, n_actions))\nassert False, 'routed effects differ from the winner effects'\n",
+                           "python": "# rebuild with harness/props/c04.py simulate_block((rule_seed, seed, n_actions, d))\nassert False, 'routed effects differ from the winner effects'\n",
                            "expected": "Model/Routing.v received (onehot w)"})
